@@ -66,18 +66,25 @@ func writeQueryExtra(dir string, idx int, o *Obligation, forCVC bool, extra []st
 	if forCVC {
 		q = cvcConstArrays(q)
 	}
-	b.WriteString(q)
+	var tail strings.Builder
 	for _, x := range extra {
-		b.WriteString("(assert " + x + ")\n")
+		tail.WriteString("(assert " + x + ")\n")
 	}
-	b.WriteString("(check-sat)\n")
+	tail.WriteString("(check-sat)\n")
 	if len(o.Probes) > 0 {
 		var ts []string
 		for _, p := range o.Probes {
 			ts = append(ts, p.Term)
 		}
-		b.WriteString("(get-value (" + strings.Join(ts, " ") + "))\n")
+		tail.WriteString("(get-value (" + strings.Join(ts, " ") + "))\n")
 	}
+	if litReg != nil {
+		// declare exactly the string literals this query (with its extras and probes) mentions
+		q = strings.Replace(q, litMarker+"\n", litReg.litDecls(q+tail.String()), 1)
+		q = strings.Replace(q, declMarker+"\n", litReg.structDecls(q+tail.String()), 1)
+	}
+	b.WriteString(q)
+	b.WriteString(tail.String())
 	suffix := ".smt2"
 	if forCVC {
 		suffix = ".cvc5.smt2"
@@ -89,6 +96,8 @@ func writeQueryExtra(dir string, idx int, o *Obligation, forCVC bool, extra []st
 
 // discharge runs all obligations; quick: z3-new first then the others; thorough: all three.
 var nPolished int
+
+var nRetried int
 
 func discharge(obls []*Obligation, dir string, jobs, timeoutMs int, thorough bool, keepFailed string) float64 {
 	os.MkdirAll(dir, 0o755)
@@ -127,6 +136,29 @@ func discharge(obls []*Obligation, dir string, jobs, timeoutMs int, thorough boo
 				go func() { ch <- run("z3") }()
 				go func() { ch <- run("cvc5") }()
 				results = append(results, <-ch, <-ch)
+			}
+			// nobody decided: before calling the obligation undecided, give the primary solver one long, undisturbed
+			// attempt (a loaded machine turns a 1 s proof into a timeout; an alarm for that reason would be a false one).
+			// Capped: a tree with many genuinely undecidable obligations must not take hours.
+			anyDecided := false
+			for _, x := range results {
+				if decided(x) {
+					anyDecided = true
+				}
+			}
+			if !anyDecided {
+				mu.Lock()
+				nRetried++
+				retry := nRetried <= 40
+				mu.Unlock()
+				if retry {
+					rr := runSolver("z3-new", f, 6*timeoutMs)
+					rr.solver = "z3-new(long)"
+					mu.Lock()
+					total += rr.secs
+					mu.Unlock()
+					results = append(results, rr)
+				}
 			}
 			// combine
 			var sat, unsat []string
